@@ -1260,8 +1260,29 @@ func specKeyedMapOp(op Operation) bool {
 	return op == OpMapIndex || op == -OpMapIndex || op == OpSetMap || op == -OpSetMap || op == OpDelete
 }
 
+// More faults of the interpreted program that the Go runtime or reflect raise
+// on its behalf and that gc reports as recoverable run-time panics: a send on
+// a closed channel chosen by a select, a channel or slice size out of range,
+// an append that overflows, a comparison of uncomparable values of a type
+// declared by the program (raised by vm.equals as a string).
+func specRuntimeErrText(msg any, text string) bool {
+	err, ok := msg.(runtime.Error)
+	return ok && err.Error() == text
+}
+
+func specStringWithPrefix(msg any, prefix string) bool {
+	s, ok := msg.(string)
+	return ok && strings.HasPrefix(s, prefix)
+}
+
 //@ func (*VM).convertPanic
 //@   props X00 C12 C13 C05
+//@   ensures[C05] specRuntimeErrText(msg, "send on closed channel") && old(vm.fn.Body[vm.pc-1].Op) == OpSelect ==> specIsPanicErr(result)
+//@   ensures[C05] specRuntimeErrText(msg, "makechan: size out of range") && (old(vm.fn.Body[vm.pc-1].Op) == OpMakeChan || old(vm.fn.Body[vm.pc-1].Op) == -OpMakeChan) ==> specIsPanicErr(result)
+//@   ensures[C05] specRuntimeErrText(msg, "runtime: allocation size out of range") && old(vm.fn.Body[vm.pc-1].Op) == OpMakeSlice ==> specIsPanicErr(result)
+//@   ensures[C05] specStringWithPrefix(msg, "reflect.Value.Grow: slice overflow") && old(vm.fn.Body[vm.pc-1].Op) == OpAppendSlice ==> specIsPanicErr(result)
+//@   ensures[C05] specUnhashableKey(msg) && (old(vm.fn.Body[vm.pc-1].Op) == OpIf || old(vm.fn.Body[vm.pc-1].Op) == -OpIf) ==> specIsPanicErr(result)
+//@   ensures[C05] specStringWithPrefix(msg, "runtime error: comparing uncomparable type ") && (old(vm.fn.Body[vm.pc-1].Op) == OpIf || old(vm.fn.Body[vm.pc-1].Op) == -OpIf) ==> specIsPanicErr(result)
 //@   opt puremethods Error
 //@   opt stable VM Function
 //@   requires vm.fn != nil && 1 <= vm.pc && int(vm.pc) <= len(vm.fn.Body)
